@@ -466,7 +466,14 @@ pub fn gen(r: &mut Rng, out: &mut Out, thorough: bool, id: &mut u64) {
                 _ => gen_cert(&mut cr, out),
             };
             out.stat(&format!("kind_{}", kind), 1);
-            out.stat(&format!("unproved_codec_{}", kind), 1);
+            // all three formats of this file are modelled and proved now: `adv` (AdvData + RecoveryAdvData:
+            // Model/Codec/BleAdv.lean, BleRecovery.lean, recomputed by the driver), the mDNS format
+            // (Model/Codec/Mdns.lean, checked in the `mdns2` sub-stream, c17_mdns.rs) and the certificate
+            // conversion (Model/Codec/Der.lean + CertAsn1.lean, kind `derw`, c17_der.rs); the `mdns` and `cert`
+            // streams here stay as additional implementation-side oracles, no `unproved_codec_*` stat is left
+            if false {
+                out.stat(&format!("unproved_codec_{}", kind), 1);
+            }
             super::emit_case(out, *id, kind, ops);
             *id += 1;
         }
